@@ -578,6 +578,16 @@ def battery_cases():
                                "rows": [{"id": _v("int", 50 + k), "Bo dy": vals[0], "s": vals[1]}]})
         out.append(({"shape": "linear", "hist": lin[:1], "bodies": ub, "cmd": "upgrade", "start": [], "target": "heads", "env": {}},
                     "real" if k % 2 else "fake"))
+    # bulk_insert through a real sa.Table whose column keys differ from the column names, rows keyed by the keys
+    for k, multi in enumerate((True, False)):
+        kb = json.loads(json.dumps(bodies))
+        kb["a1"]["up"].append({"op": "bulk_insert", "table": "no;te", "cols": bcols, "multiinsert": multi,
+                               "keys": {"Bo dy": "body_attr", "s": "s"} if k else {"id": "pk", "Bo dy": "body", "s": "note_text"},
+                               "rows": [{"id": _v("int", 60), "Bo dy": _v("str", "keyed"), "s": _v("str", "v1")},
+                                        {"id": _v("int", 61), "Bo dy": _v("null"), "s": _v("str", "v2")}]})
+        for mode in ("fake", "real"):
+            out.append(({"shape": "linear", "hist": lin[:1], "bodies": kb, "cmd": "upgrade", "start": [], "target": "heads",
+                         "env": {"literal_binds": bool(k)}}, mode))
     enc_bodies = json.loads(json.dumps(bodies).replace("\\u65e5\\u672c", "\\u00e9\\u00ff"))  # only latin-1 / cp1252 characters
     for enc in ("latin-1", "cp1252"):
         out.append(({"shape": "linear", "hist": lin, "bodies": enc_bodies, "cmd": "upgrade", "start": [], "target": "heads",
